@@ -141,7 +141,9 @@ def gen_worker(d: D, prof: dict, depth: int, n_hint: int) -> dict:
     else:
         ws["script"] = gen_script(d, prof, depth)
     if d.p(prof["p_worker_raise"]):
-        ws["ends"] = [["raise"] if d.p(0.5) else ["ret"] for _ in range(d.i(1, 3))]
+        # "cancelled": the coroutine ends by raising CancelledError itself (e.g. it awaited something that was cancelled): ended by
+        # cancellation although nobody asked the pool for it
+        ws["ends"] = [["raise"] if d.p(0.5) else ["cancelled"] if d.p(0.25) else ["ret"] for _ in range(d.i(1, 3))]
     r = d.i(0, 99)
     if r < prof["p_swallow"] * 100:
         ws["on_cancel"] = "swallow"
@@ -276,7 +278,7 @@ def gen_op(d: D, prof: dict, name: str, depth: int = 0) -> dict:
         elif r == 1:
             op["default_re"] = True
     elif name == "set_size":
-        op["v"] = d.pick(prof.get("new_sizes", [0, 1, 2, 3, 4, 5, None, -1, -2, -0.5, -0.25]))
+        op["v"] = d.pick(prof.get("new_sizes", [0, 1, 2, 3, 4, 5, None, -1, -2, -0.5, -0.25, "-inf"]))
     elif name == "bad_spawn":
         gen_spawn(d, prof, 1, op)
         op["op"] = "bad_spawn"
@@ -293,7 +295,7 @@ def gen_op(d: D, prof: dict, name: str, depth: int = 0) -> dict:
         op["size"] = d.pick([None, 1, 2, 3])
         op["factory"] = d.p(0.4)
     elif name == "bad_pool":
-        op["v"] = d.i(0, 2)
+        op["v"] = d.i(0, 3)
         op["simple"] = d.p(0.3)
     return op
 
@@ -310,7 +312,9 @@ def gen_pool(d: D, prof: dict) -> dict:
     if spec["size"] is not None and d.p(0.1):
         spec["size_as_float"] = True          # 2.0 is as good a size as 2 (the parameter is annotated float)
     if cls == "SimpleTaskPool":
-        spec["worker"] = gen_worker(d, prof, 1, prof["max_num"])
+        # the pool's one function may itself operate on the pool (stop, cancel, ...), but does not start more of itself
+        emb = [o for o in prof["embedded_ops"] if o != "spawn"] or ["gate"]
+        spec["worker"] = gen_worker(d, dict(prof, embedded_ops=emb), 0, prof["max_num"])
         spec["worker"].pop("call_op", None)
         spec["worker"]["nargs"] = d.i(0, 2)
         spec["worker"]["nkw"] = d.i(-1, 2)
@@ -355,6 +359,8 @@ def decode_program(data: bytes, prof: dict) -> dict:
     prog = {"pools": pools, "steps": steps}
     for hook in prof.get("post", ()):
         prog = hook(prog, d)
+    if d.p(0.12):
+        prog["log"] = "debug"       # the deployment has the library's logger at DEBUG: every log call is evaluated and formatted
     return prog
 
 
